@@ -1,11 +1,15 @@
 #!/bin/bash
 # tools/w4_try.sh <prop>...: validate and run every delivered wave-4 change of the given properties
+# the checks run from a snapshot of /verif (edits made meanwhile must not break the build half-way)
+snap=/tmp/trysnap.$$; rm -rf $snap; mkdir -p $snap; rsync -a --exclude .git --exclude evidence --exclude replays --exclude seeded --exclude findings /verif/ $snap/
+trap 'rm -rf $snap' EXIT
+export VERIF_DIR=$snap
 for p in "$@"; do
-  for m in /tmp/w4out/$p/m*/; do
+  for m in ${WOUT:-/tmp/w4out}/$p/[mM]*/; do
     m=${m%/}
     [ -f $m/patch.diff ] || continue
     echo "=== $m"
     /verif/tools/validate_mutant.sh $m
-    VERIF_WORKERS=8 LINES_MAX=6 /verif/tools/trym.sh $m/patch.diff $p 2>&1 | grep -v "^WARNING conda" | cut -c1-260
+    VERIF_WORKERS=${VERIF_WORKERS:-8} LINES_MAX=6 /verif/tools/trym.sh $m/patch.diff $p 2>&1 | grep -v "^WARNING conda" | cut -c1-260
   done
 done
